@@ -416,6 +416,16 @@ def _case(draw):
         if multi:
             y0 = [[c] * A for c in y0]
         case["prior_fit"] = {"X": X0, "y": y0}
+    if comp == "SKC" and K >= 2 and draw(st.integers(0, 3)) == 0:
+        # the wrapped scikit-learn estimator was trained by the caller before
+        # it was wrapped (every class seen); fit must not keep that model
+        dq = len(Xq[0])
+        n0 = draw(st.integers(K, K + 3))
+        perm = draw(st.permutations(list(range(K))))
+        cfg["params"]["estimator"]["prefit"] = {
+            "X": draw(_rows(n0, dq)),
+            "y": [labels[perm[i % K]] for i in range(n0)]}
+        tags.append("inner_prefit")
     return case
 
 
